@@ -421,6 +421,7 @@ def harness(ctx, cfg):
                        "C11")
         if is_user and want("C20"):
             ctx.oblige("C20.refused_emits_none", len(p.emitted) == 0, "C20")
+            ctx.oblige("C20.signal_delivers_after_refusal", signal_delivers(p), "C20")
         if is_user and want("C03") and kind == "UserAddEdge":
             u, v = named["nodes"]
             both = And(p.sh0.al[u - 1], p.sh0.al[v - 1])
@@ -617,6 +618,18 @@ def harness(ctx, cfg):
                        and len(S3.undo) == len(S1.undo) and S3.redo == [], "C02")
         if is_user and want("C20"):
             ctx.oblige("C20.undo_one_refresh", len(e2) == 1 and len(e3) == 1, "C20")
+            ctx.oblige("C20.signal_delivers_after_edit", signal_delivers(p), "C20")
+
+
+def signal_delivers(p):
+    """invariant clause behind C20 (the NEXT change is announced too): after the call the refresh signal still reaches
+    the listener that was connected before it - one probe emission, exactly one delivery (a signal left blocked,
+    paused or disconnected by an earlier call would swallow the notification of every later change)"""
+    n0 = len(p.emitted)
+    p.tr.refresh.emit("verif-probe")
+    ok = len(p.emitted) == n0 + 1
+    del p.emitted[n0:]
+    return ok
 
 
 # ------------------------------------------------------------------ induction-hypothesis audit (two-step runs)
